@@ -80,6 +80,9 @@ def source_items(progs, vecs, maxn=4, adaptive=True):
     return items, outside, nerr
 
 
+PY_SPELLINGS = {"None", "True", "False", "nan", "inf", "-inf", "NaN", "Ellipsis"}
+
+
 def run_source_check(pid, tier, t0, items, rule, extra_cov, level="translation_validation", violation_filter=None):
     rep = Reporter(pid)
     cases = [it["case"] for it in items]
@@ -113,8 +116,14 @@ def run_source_check(pid, tier, t0, items, rule, extra_cov, level="translation_v
         bad = [v for v in vs if equiv.is_violation(v)]
         if violation_filter:
             bad = [v for v in bad if violation_filter(v)]
+        # the loader could not resolve an operand of the emitted text: inconclusive in general (names the loader does not know) -
+        # but an operand spelled the way Python prints a non-number (None, True, nan ...) is a value that was never computed
+        if "INCONCLUSIVE:B:UNRESOLVED_OPERAND" in vs:
+            py = sorted({t for l in it["b_text"].split("\n") for t in ic10load.tokenize(l)[1:] if t in PY_SPELLINGS})
+            if py:
+                bad.append("PYTHON_VALUE_IN_EMITTED_TEXT:" + ",".join(py))
         for v in sorted(bad):
-            clause = v.split(":")[-1] if v.startswith(("MON_", "FAULT_")) else v
+            clause = v.split(":")[-1] if v.startswith(("MON_", "FAULT_")) else v.split(":")[0] if v.startswith("PYTHON_VALUE") else v
             if rep.violation([it["name"], it["name"] + "@" + it["tag"]] + ["shape:" + x for x in it.get("shapes", [])]
                              + ["shape:%s@%s" % (x, it["tag"]) for x in it.get("shapes", [])], clause,
                              {"property": pid, "case": it["name"], "variant": it["tag"], "verdict": v, "source": it["src"],
@@ -155,13 +164,21 @@ def check_c01(tier, t0):
     gen, gr = proggen.generate("C01_gen", 300 if tier == "thorough" else 36, seed(), max_lines=8, max_depth=2, nfuncs=1)
     gprogs = [(n, s) for n, s, _ in gen]
     if tier == "thorough":
-        ex, er = proggen.generate("C01_genx", 0, seed(), max_lines=2, max_depth=1, nfuncs=0, exhaustive=True, alphabet=proggen.SMALL)
-        gprogs += [(n.replace("pg_", "pgx_"), s) for n, s, _ in ex]
+        ex, er = proggen.generate("C01_genx", 0, seed(), max_lines=2, max_depth=1, nfuncs=0, exhaustive=True, alphabet=proggen.TINY)
+        xprogs = [(n.replace("pg_", "pgx_"), s) for n, s, _ in ex]
+    else:
+        xprogs = []
     if not os.environ.get("VERIF_ONLY") or _re.search(os.environ["VERIF_ONLY"], "pg_"):
         gitems, goutside, gerr = source_items(gprogs, vecs[:2] if tier == "quick" else vecs[:4], maxn=3)
         items += gitems
         outside.update(goutside)
         nerr += gerr
+        if xprogs:      # every program of the tiny configuration, under the reference vector and the most transforming one
+            gitems, goutside, gerr = source_items(xprogs, [vecs[0], vecs[2]], maxn=3)
+            items += gitems
+            outside.update(goutside)
+            nerr += gerr
+            gprogs += xprogs
     if len(items) < 40 and not os.environ.get("VERIF_ONLY"):
         raise MachineryError("only %d cases inside the dialect" % len(items))
     rule = ("program families (branches, loops, functions, register pressure, access forms), terminating programs, witnesses of listed "
@@ -484,6 +501,10 @@ WIDE = [  # (name, definition, call, python expression of the expected value) - 
     ("wide_hash_str", "def kh(name):\n    return HASH(name)\n", 'kh("StructureFurnace")'),
     ("wide_pow", "def kp(xa):\n    return 3 ** xa\n", "kp(30)"),
     ("wide_hash_nonascii", "def kh(name):\n    return HASH(name) + 1\n", 'kh("Küche")'),
+    # names that look like something else to a layer on the way: HASH inside a constexpr is the CRC of exactly the text given
+    ("wide_hash_quoted", "def kh(name):\n    return HASH(name)\n", "kh('\"ItemIronIngot\"')"),
+    ("wide_hash_wrapped", "def kh(name):\n    return HASH(name) + 2\n", "kh('HASH(\"ItemIronIngot\")')"),
+    ("wide_hash_digits", "def kh(name):\n    return HASH(name)\n", 'kh("12")'),
     ("wide_float", "def kf(xa):\n    return xa / 3\n", "kf(10)"),
     ("wide_neg", "def kn(xa):\n    return -(xa << 40) - 1\n", "kn(5)"),
 ]
@@ -542,9 +563,20 @@ def check_c12(tier, t0):
         import random
         rnd = random.Random(seed() + 12)
         keep = {n for n, _ in progs if n.endswith(("_0_stmt", "library", "libinner")) or "k8_" in n}
+        # every call position at least once (with a seeded choice of the template)
+        for pos in ("operand", "argument", "in_function", "in_inlined", "condition", "assigned"):
+            cands = sorted(n for n, _ in progs if n.endswith("_" + pos))
+            if cands:
+                keep.add(rnd.choice(cands))
         rest = [p for p in progs if p[0] not in keep]
         rnd.shuffle(rest)
-        progs = [p for p in progs if p[0] in keep] + rest[:24]
+        progs = [p for p in progs if p[0] in keep] + rest[:20]
+    # constexpr functions written by the grammar (ProgGen.tla with Pure = TRUE: bodies without device access, early returns,
+    # called with constants from anywhere in the generated main part)
+    import proggen
+    gen, _gr = proggen.generate("C12_gen", 150 if tier == "thorough" else 40, seed() + 12, max_lines=6, max_depth=2, nfuncs=2, pure=True)
+    gen = [(n.replace("pg_", "cxg_"), s) for n, s, p in gen if any(l["kind"] == "call" for l in p["lines"])][: (100 if tier == "thorough" else 16)]
+    progs = progs + gen
     vecs = [cw.REF, cw.opts(inline_functions=True), cw.opts(inline_functions=True, remove_labels=True, compact=True)]
     conv, outside = [], {}
     for n, s in progs:
@@ -651,7 +683,7 @@ def check_c12(tier, t0):
             "function at run time (ordinary evaluation), the emitted text holds the literal: equal effects for all inputs; plus: decorated function "
             "emits no code (hook H1 + labels), open/eval/exec bodies rejected, wide results (48-bit hash packing, powers, non-ASCII hash) read back by "
             "NumFmt.tla against Python's value (oracle=python)")
-    extra = {"outside_dialect": outside, "undecided_helper_timeout_under_load": undecided, "wide_values_oracle_python": nwide, "forbidden_bodies_checked": len(forb)}
+    extra = {"outside_dialect": outside, "generated_constexpr_programs": len(gen), "undecided_helper_timeout_under_load": undecided, "wide_values_oracle_python": nwide, "forbidden_bodies_checked": len(forb)}
     return run_source_check_merge("C12", tier, t0, items, rule, extra, rep, len(rep.violations))
 
 
